@@ -598,6 +598,28 @@ fn run_op(op: i64, data: &[u8], args: &[u64]) -> Result<Vec<i128>, String> {
                 }
                 out
             }
+            28 => {
+                use read_fonts::tables::layout::Device;
+                match Device::read(fd) {
+                    Ok(dv) => {
+                        let mut out = vec![0i128];
+                        out.extend(ok(vec![dv.start_size() as i128]));
+                        out.extend(ok(vec![dv.end_size() as i128]));
+                        let f = dv.delta_format() as u16;
+                        out.extend(ok(vec![match f {
+                            1 => 1,
+                            2 => 2,
+                            3 => 3,
+                            0x8000 => 4,
+                            _ => 0,
+                        }]));
+                        out.extend(ok(vec![(dv.delta_value().len() * 2) as i128]));
+                        out.extend(ok(dv.iter().map(|v| v as i128).collect()));
+                        out
+                    }
+                    Err(e) => err_code(&e),
+                }
+            }
             _ => unreachable!(),
         }
     })
@@ -3248,9 +3270,388 @@ fn closure_search(seed: u64, thorough: bool, st: &mut Stats, dir: &std::path::Pa
     }
 }
 
+// ------------------------------------------------------------------------------------------------
+// (e) layout Device tables: every deltaFormat class x size range, through every public entry point
+// ------------------------------------------------------------------------------------------------
+fn device_bytes(start: u16, end: u16, fmt: u16, words: &[u16]) -> Vec<u8> {
+    let mut v = vec![];
+    v.extend(be16(start));
+    v.extend(be16(end));
+    v.extend(be16(fmt));
+    for w in words {
+        v.extend(be16(*w));
+    }
+    v
+}
+const DEVICE_FORMATS: [u16; 12] = [0, 1, 2, 3, 4, 5, 0x7FFF, 0x8000, 0x8001, 0x8003, 0xFFFE, 0xFFFF];
+fn device_grid(rng: &mut Rng) -> Vec<(String, Vec<u8>)> {
+    let mut out = vec![];
+    for fmt in DEVICE_FORMATS {
+        for (s, e) in [(0u16, 0u16), (0, 1), (0, 7), (0, 8), (0, 15), (0, 16), (3, 3), (5, 4), (9, 40), (0, 255), (65535, 65535), (0, 65535), (65535, 0), (12, 19)] {
+            for nwords in [0usize, 1, 2, 3, 5, 9, 40] {
+                let words: Vec<u16> = (0..nwords).map(|_| *rng.pick(&[0u16, 0xFFFF, 0x8000, 0x7FFF, 0x1234, 0x8080, 0xAAAA])).collect();
+                out.push((format!("device:fmt={:#x}:sizes={}-{}:words={}", fmt, s, e, nwords), device_bytes(s, e, fmt, &words)));
+            }
+        }
+    }
+    out
+}
+fn drive_device_tables(bytes: &[u8]) -> u64 {
+    use read_fonts::tables::gdef::CaretValue;
+    use read_fonts::tables::gpos::{AnchorTable, ValueFormat, ValueRecord};
+    use read_fonts::tables::layout::{Device, DeviceOrVariationIndex};
+    let mut h = 0u64;
+    let fd = FontData::new(bytes);
+    let mut dev = |d: &DeviceOrVariationIndex, h: &mut u64| match d {
+        DeviceOrVariationIndex::Device(dv) => {
+            for v in dv.iter().take(200_000) {
+                *h = h.wrapping_mul(31).wrapping_add(v as u8 as u64);
+            }
+            *h = h.wrapping_add(dv.delta_value().len() as u64);
+        }
+        DeviceOrVariationIndex::VariationIndex(v) => *h = h.wrapping_add(v.delta_set_inner_index() as u64),
+    };
+    if let Ok(dv) = Device::read(fd) {
+        h = h.wrapping_add(dv.iter().take(200_000).count() as u64);
+    }
+    if let Ok(d) = DeviceOrVariationIndex::read(fd) {
+        dev(&d, &mut h);
+    }
+    // the same table behind an Anchor format 3 (x and y device), a CaretValue format 3 and a ValueRecord with all four devices
+    let mut anchor = vec![];
+    anchor.extend(be16(3));
+    anchor.extend(be16(10));
+    anchor.extend(be16(20));
+    anchor.extend(be16(10));
+    anchor.extend(be16(10));
+    anchor.extend(bytes);
+    if let Ok(AnchorTable::Format3(a)) = AnchorTable::read(FontData::new(&anchor)) {
+        for d in [a.x_device(), a.y_device()].into_iter().flatten().flatten() {
+            dev(&d, &mut h);
+        }
+    }
+    let mut caret = vec![];
+    caret.extend(be16(3));
+    caret.extend(be16(7));
+    caret.extend(be16(6));
+    caret.extend(bytes);
+    if let Ok(CaretValue::Format3(c)) = CaretValue::read(FontData::new(&caret)) {
+        if let Ok(d) = c.device() {
+            dev(&d, &mut h);
+        }
+    }
+    let mut vr = vec![];
+    for _ in 0..4 {
+        vr.extend(be16(1));
+    }
+    for _ in 0..4 {
+        vr.extend(be16(16));
+    }
+    vr.extend(bytes);
+    let vdata = FontData::new(&vr);
+    if let Ok(rec) = ValueRecord::read(vdata, ValueFormat::from_bits_truncate(0x00FF)) {
+        for d in [rec.x_placement_device(vdata), rec.y_placement_device(vdata), rec.x_advance_device(vdata), rec.y_advance_device(vdata)].into_iter().flatten().flatten() {
+            dev(&d, &mut h);
+        }
+    }
+    h
+}
+fn device_search(seed: u64, st: &mut Stats) {
+    let mut rng = Rng::new(seed ^ 0x4445_5649);
+    let mut cases = device_grid(&mut rng);
+    // every even offset of every layout table of every font read as a Device / DeviceOrVariationIndex (cf. C20)
+    for f in load_fonts() {
+        for (tag, o, l) in &f.tables {
+            let t = tag.to_be_bytes();
+            if [b"GPOS", b"GDEF", b"GSUB", b"BASE", b"MATH", b"JSTF"].iter().any(|x| **x == t) {
+                let data = &f.bytes[*o..*o + *l];
+                let step = ((*l / 3000).max(1)) * 2;
+                let mut off = 0;
+                while off + 6 <= data.len() {
+                    cases.push((format!("device-scan:{}:{}@{}", f.name, String::from_utf8_lossy(&t), off), data[off..data.len().min(off + 600)].to_vec()));
+                    off += step;
+                }
+            }
+        }
+    }
+    let mut seen = std::collections::BTreeSet::new();
+    for (name, bytes) in &cases {
+        st.evaluations += 1;
+        st.count(if name.starts_with("device:") { "device.grid_cases" } else { "device.scan_cases" });
+        let b2 = bytes.clone();
+        if let Err(m) = catch(move || drive_device_tables(&b2)) {
+            st.count("device.failures");
+            let m60: String = m.chars().take(60).collect();
+            if seen.insert((last_loc(), m60.clone())) {
+                st.oracle_failure(json!({"key": format!("{}:{}", name, m60), "input": bytes, "panic": m, "at": last_loc()}));
+            }
+        }
+    }
+}
+
+// ------------------------------------------------------------------------------------------------
+// (f) charstring subroutine graphs, evaluated in a child process so that unbounded recursion (stack overflow =
+//     SIGSEGV/abort) is an observation (`abort:stack-overflow:...`) instead of the end of the harness
+// ------------------------------------------------------------------------------------------------
+struct SubrCase {
+    name: String,
+    cs: Vec<u8>,
+    gsubrs: Vec<Vec<u8>>,
+    lsubrs: Option<Vec<Vec<u8>>>,
+}
+fn bias_for(count: usize) -> i32 {
+    if count < 1240 {
+        107
+    } else if count < 33900 {
+        1131
+    } else {
+        32768
+    }
+}
+/// body: `0 1 hstem`, then (optionally) push (target - bias) and call, then return
+fn subr_body(call: Option<(bool, usize, usize)>) -> Vec<u8> {
+    let mut b = vec![139u8, 140, 1];
+    if let Some((global, target, count)) = call {
+        b.extend(ps_int(target as i32 - bias_for(count)));
+        b.push(if global { 29 } else { 10 });
+    }
+    b.push(11);
+    b
+}
+fn subr_graph_cases() -> Vec<SubrCase> {
+    let mut v = vec![];
+    for pad in [0usize, 1240, 33900] {
+        // kinds: 0 local only, 1 global only, 2 alternating local/global
+        for kind in 0..3u8 {
+            for shape in ["chain", "cycle", "self"] {
+                let depths: Vec<usize> = match shape {
+                    "chain" => vec![1, 8, 9, 10, 11, 12, 14],
+                    "cycle" => vec![2, 3, 5],
+                    _ => vec![1],
+                };
+                for d in depths {
+                    if pad > 0 && !(d == 1 || d == 10 || d == 11 || d == 3) {
+                        continue;
+                    }
+                    // node j lives in the local INDEX (false) or global INDEX (true)
+                    let is_global = |j: usize| match kind {
+                        0 => false,
+                        1 => true,
+                        _ => j % 2 == 1,
+                    };
+                    let n = d;
+                    let mut gl: Vec<Vec<u8>> = vec![];
+                    let mut lo: Vec<Vec<u8>> = vec![];
+                    // positions of each node inside its INDEX
+                    let mut pos = vec![];
+                    let (mut gi, mut li) = (0usize, 0usize);
+                    for j in 0..n {
+                        if is_global(j) {
+                            pos.push(gi);
+                            gi += 1;
+                        } else {
+                            pos.push(li);
+                            li += 1;
+                        }
+                    }
+                    let gcount = gi.max(pad);
+                    let lcount = li.max(pad);
+                    for j in 0..n {
+                        let next = match shape {
+                            "chain" => (j + 1 < n).then_some(j + 1),
+                            "cycle" => Some((j + 1) % n),
+                            _ => Some(j),
+                        };
+                        let body = subr_body(next.map(|t| (is_global(t), pos[t], if is_global(t) { gcount } else { lcount })));
+                        if is_global(j) {
+                            gl.push(body);
+                        } else {
+                            lo.push(body);
+                        }
+                    }
+                    while gl.len() < gcount && gi > 0 {
+                        gl.push(vec![11]);
+                    }
+                    while lo.len() < lcount && li > 0 {
+                        lo.push(vec![11]);
+                    }
+                    let mut cs = vec![139u8, 140, 1];
+                    cs.extend(ps_int(pos[0] as i32 - bias_for(if is_global(0) { gl.len() } else { lo.len() })));
+                    cs.push(if is_global(0) { 29 } else { 10 });
+                    cs.push(14);
+                    v.push(SubrCase { name: format!("subrs:{}:{}:{}:pad{}", ["local", "global", "mixed"][kind as usize], shape, d, pad), cs, gsubrs: gl, lsubrs: if kind == 1 { None } else { Some(lo) } });
+                }
+            }
+        }
+    }
+    // hostile call operands and missing INDEXes
+    for (i, operand) in [-32768i32, -1132, -1131, -108, -107, -106, 0, 107, 108, 1131, 32767].iter().enumerate() {
+        for global in [false, true] {
+            let mut cs = ps_int(*operand);
+            cs.push(if global { 29 } else { 10 });
+            cs.push(14);
+            v.push(SubrCase { name: format!("subrs:operand:{}:{}", i, global), cs, gsubrs: vec![subr_body(None), vec![139, 140, 1]], lsubrs: if i % 3 == 0 { None } else { Some(vec![subr_body(None)]) } });
+        }
+    }
+    v
+}
+struct HstemSink(u64);
+impl read_fonts::tables::postscript::charstring::CommandSink for HstemSink {
+    fn move_to(&mut self, _: Fixed, _: Fixed) {}
+    fn line_to(&mut self, _: Fixed, _: Fixed) {}
+    fn curve_to(&mut self, _: Fixed, _: Fixed, _: Fixed, _: Fixed, _: Fixed, _: Fixed) {}
+    fn close(&mut self) {}
+    fn hstem(&mut self, _: Fixed, _: Fixed) {
+        self.0 += 1;
+    }
+}
+fn eval_subr_case(c: &SubrCase) -> Vec<i128> {
+    use read_fonts::tables::postscript::{charstring, Error as E, Index};
+    let gb = index1_bytes(&c.gsubrs);
+    let lb = c.lsubrs.as_ref().map(|l| index1_bytes(l));
+    let g = Index::new(&gb, false).unwrap_or_default();
+    let l = lb.as_ref().map(|b| Index::new(b, false).unwrap_or_default());
+    let mut sink = HstemSink(0);
+    match charstring::evaluate(&c.cs, g, l, None, &mut sink) {
+        Ok(()) => vec![0, sink.0 as i128],
+        Err(e) => vec![
+            1,
+            match e {
+                E::Read(_) => 1,
+                E::CharstringNestingDepthLimitExceeded => 20,
+                E::StackUnderflow => 21,
+                E::MissingSubroutines => 22,
+                E::InvalidStackAccess(_) => 23,
+                E::StackOverflow => 24,
+                _ => 97,
+            },
+        ],
+    }
+}
+/// child mode: evaluate the cases from `start`, one line per event on stdout
+fn subr_child(start: usize) {
+    use std::io::Write;
+    let cases = subr_graph_cases();
+    let out = std::io::stdout();
+    for (i, c) in cases.iter().enumerate().skip(start) {
+        {
+            let mut o = out.lock();
+            writeln!(o, "BEGIN {}", i).unwrap();
+            o.flush().unwrap();
+        }
+        let r = catch(std::panic::AssertUnwindSafe(|| eval_subr_case(c)));
+        let mut o = out.lock();
+        match r {
+            Ok(v) => writeln!(o, "RES {} {}", i, v.iter().map(|x| x.to_string()).collect::<Vec<_>>().join(" ")).unwrap(),
+            Err(m) => writeln!(o, "PANIC {} {}", i, m.replace('\n', " ")).unwrap(),
+        }
+        o.flush().unwrap();
+    }
+    println!("DONE");
+}
+fn subr_search(cw: &mut CaseWriter, st: &mut Stats) {
+    let cases = subr_graph_cases();
+    let exe = std::env::current_exe().unwrap();
+    let mut results: Vec<Option<Vec<i128>>> = vec![None; cases.len()];
+    let mut start = 0usize;
+    let mut restarts = 0;
+    while start < cases.len() && restarts < 40 {
+        let mut child = std::process::Command::new(&exe).arg("--subr-child").arg(start.to_string()).stdout(std::process::Stdio::piped()).stderr(std::process::Stdio::null()).spawn().unwrap();
+        let t0 = Instant::now();
+        let status = loop {
+            match child.try_wait().unwrap() {
+                Some(s) => break Some(s),
+                None => {
+                    if t0.elapsed() > Duration::from_secs(120) {
+                        let _ = child.kill();
+                        break None;
+                    }
+                    std::thread::sleep(Duration::from_millis(20));
+                }
+            }
+        };
+        let mut text = String::new();
+        if let Some(mut o) = child.stdout.take() {
+            use std::io::Read;
+            let _ = o.read_to_string(&mut text);
+        }
+        let mut last_begin = None;
+        let mut finished = false;
+        for line in text.lines() {
+            let mut it = line.splitn(3, ' ');
+            match it.next() {
+                Some("BEGIN") => last_begin = it.next().and_then(|x| x.parse::<usize>().ok()),
+                Some("RES") => {
+                    let i: usize = it.next().unwrap().parse().unwrap();
+                    results[i] = Some(it.next().unwrap_or("").split(' ').filter_map(|x| x.parse().ok()).collect());
+                    last_begin = None;
+                }
+                Some("PANIC") => {
+                    let i: usize = it.next().unwrap().parse().unwrap();
+                    let msg = it.next().unwrap_or("").to_string();
+                    results[i] = Some(vec![3]);
+                    st.count("subrs.panics");
+                    st.oracle_failure(json!({"key": format!("{}:{}", cases[i].name, msg.chars().take(60).collect::<String>()), "panic": msg}));
+                    last_begin = None;
+                }
+                Some("DONE") => finished = true,
+                _ => {}
+            }
+        }
+        if finished {
+            break;
+        }
+        // the child died (stack overflow / abort) or was killed by the watchdog while evaluating `last_begin`
+        let i = last_begin.unwrap_or(start);
+        let how = match status {
+            None => "hang".to_string(),
+            Some(s) => format!("{:?}", s),
+        };
+        st.count("subrs.child_deaths");
+        st.oracle_failure(json!({"key": format!("abort:{}:charstring::evaluate:{}", if status.is_none() { "hang" } else { "stack-overflow" }, cases[i].name),
+            "what": format!("the child process evaluating this charstring died ({}): unbounded subroutine recursion", how)}));
+        results[i] = Some(vec![3]);
+        start = i + 1;
+        restarts += 1;
+    }
+    // correspondence: one op-29 case per subr graph (skipping the very large padded INDEXes except one of each class)
+    let mut big = 0u64;
+    for (c, r) in cases.iter().zip(results) {
+        st.evaluations += 1;
+        st.count("subrs.cases");
+        let Some(r) = r else { continue };
+        let total: usize = c.gsubrs.len() + c.lsubrs.as_ref().map(|l| l.len()).unwrap_or(0);
+        if total > 3000 {
+            // too large for a Coq literal: checked against the expected outcome directly
+            big += 1;
+            continue;
+        }
+        let mut a: Vec<u64> = vec![4000, c.lsubrs.is_some() as u64, c.gsubrs.len() as u64];
+        for s in &c.gsubrs {
+            a.push(s.len() as u64);
+            a.extend(s.iter().map(|b| *b as u64));
+        }
+        if let Some(l) = &c.lsubrs {
+            a.push(l.len() as u64);
+            for s in l {
+                a.push(s.len() as u64);
+                a.extend(s.iter().map(|b| *b as u64));
+            }
+        }
+        st.count("corr.op29");
+        st.nontrivial(&c.name);
+        cw.push(format!("(29, {}, {}, {})", cbytes(&c.cs), czlist(a.iter().map(|v| *v as i128)), czlist(r)));
+    }
+    st.add("subrs.too_large_for_model", big);
+}
+
 fn main() {
     install_hook();
     let args: Vec<String> = std::env::args().collect();
+    if let Some(p) = args.iter().position(|a| a == "--subr-child") {
+        subr_child(args.get(p + 1).and_then(|x| x.parse().ok()).unwrap_or(0));
+        return;
+    }
     let thorough = tier_is_thorough(&args);
     let seed = seed_from_env();
     let dir = out_dir(&args, "C01");
@@ -3258,20 +3659,35 @@ fn main() {
     let mut st = Stats::new();
     let mut cw = CaseWriter::new(
         &dir,
-        "From Coq Require Import ZArith List. Import ListNotations. Open Scope Z_scope.\nFrom FV Require Import Lib.Cases C01.Model C01.ModelH C01.IterModel.",
+        "From Coq Require Import ZArith List. Import ListNotations. Open Scope Z_scope.\nFrom FV Require Import Lib.Cases C01.Model C01.ModelH C01.IterModel C01.CsModel.",
         "Z * list Z * list Z * list Z",
-        "check_case_all2",
+        "check_case_all3",
         900,
     );
     correspondence(&mut rng, &mut cw, &mut st, thorough);
     correspondence_bcd(&mut rng, &mut cw, &mut st);
     correspondence_iters(&mut rng, &mut cw, &mut st, thorough);
+    {
+        let grid = device_grid(&mut rng);
+        let mut c = Corr { cw: &mut cw, st: &mut st };
+        for (i, (_, b)) in grid.iter().enumerate() {
+            // every case with <= 9 words, a third of the long ones; plus truncations
+            if b.len() <= 6 + 18 || i % 3 == 0 {
+                c.emit(28, b, &[]);
+            }
+            if i % 7 == 0 && b.len() > 2 {
+                c.emit(28, &b[..b.len() - 1 - (i % 5).min(b.len() - 2)], &[]);
+            }
+        }
+    }
+    subr_search(&mut cw, &mut st);
     let shards = cw.finish();
     st.v.insert("shards".into(), shards.into());
     st.v.insert("model_cases".into(), cw.len().into());
     if std::env::var("C01_NO_FUZZ").is_err() {
         ps_search(seed, thorough, &mut st);
         closure_search(seed, thorough, &mut st, &dir);
+        device_search(seed, &mut st);
         fuzz(seed, thorough, &mut st, &dir);
     }
     st.write(
